@@ -84,6 +84,32 @@ def scan_parser():
     facts["parser_never_mutates_tokens"] = (not tok_mut, tok_mut)
     facts["parser_never_branches_on_location"] = (not loc_branch, loc_branch)
     facts["toknl_only_in_pragma_directive"] = (set(toknl_sites) <= {"_process_pragma_directive"} and len(toknl_sites) >= 1, toknl_sites)
+    # the parser object's own state: which attributes of `self` are ever stored to, and where.  Everything a declaration
+    # could leave behind for the next one has to go through one of these.
+    KNOWN_STATE = {"anon_id", "current_namespace", "lex", "state", "visitor"}          # stored to while parsing
+    KNOWN_INIT = KNOWN_STATE | {"debug_print", "filename", "options", "verbose"}        # stored to by __init__
+    stray = []
+    for cls in [n for n in tree.body if isinstance(n, ast.ClassDef) and n.name == "CxxParser"]:
+        for fn in cls.body:
+            if not isinstance(fn, ast.FunctionDef):
+                continue
+            for node in ast.walk(fn):
+                if isinstance(node, ast.Attribute) and isinstance(node.ctx, (ast.Store, ast.Del)) and \
+                   isinstance(node.value, ast.Name) and node.value.id == "self":
+                    if node.attr not in (KNOWN_INIT if fn.name == "__init__" else KNOWN_STATE):
+                        stray.append("%s:self.%s" % (fn.name, node.attr))
+                if isinstance(node, ast.Call) and isinstance(node.func, ast.Name) and node.func.id in ("setattr", "delattr") and \
+                   node.args and ast.unparse(node.args[0]) in ("self", "type(self)", "self.__class__", "CxxParser"):
+                    stray.append("%s:%s" % (fn.name, ast.unparse(node)[:60]))
+                if isinstance(node, ast.Attribute) and node.attr == "__dict__":
+                    stray.append("%s:__dict__" % fn.name)
+                if isinstance(node, (ast.Global, ast.Nonlocal)):
+                    stray.append("%s:%s" % (fn.name, ast.unparse(node)))
+                # stores through the class object (CxxParser.x = ..., type(self).x = ..., self.__class__.x = ...)
+                if isinstance(node, ast.Attribute) and isinstance(node.ctx, (ast.Store, ast.Del)) and \
+                   ast.unparse(node.value) in ("CxxParser", "type(self)", "self.__class__", "cls"):
+                    stray.append("%s:%s" % (fn.name, ast.unparse(node)))
+    facts["parser_instance_state_is_the_known_set"] = (not stray, stray)
     facts["lex_swapped_only_in_template_specialization"] = (set(lex_assign) <= {"__init__", "_parse_template_specialization"}, sorted(set(lex_assign)))
     return facts
 
